@@ -50,10 +50,10 @@ def unsched_count(ty, src, n, t, c):
     body = unsched_prelude(n, t, src=src)
     body += f"    let r = {p.par(params_str(t, c))}.count();\n"
     body += f"    let e = {p.seq()}.count();\n"
-    body += '    assert!(r == e, "count differs from the sequential count");\n    kani::cover!(e == 1);\n'
+    body += '    assert!(r == e, "count differs from the sequential count");\n    kani::cover!(e == 1);\n    kani::cover!(model::drainer() == 1);\n'
     name = cfg_name("c04_count_drain", ty, src, f"n{n}", f"t{t}", f"c{c}")
     return H(name, body, {"terminal": "count", "type": ty, "src": src, "n": n, "threads": t, "chunk": f"Exact({c})",
-                          "schedule": "first worker drains all (iterator-backed source)"}, unwind=n + 2, weight=n * 2)
+                          "schedule": "one worker (symbolic spawn index) drains the iterator-backed source, the others find it exhausted"}, unwind=n + 2, weight=n * 2)
 
 
 def harnesses(tier, seed):
@@ -62,6 +62,8 @@ def harnesses(tier, seed):
         for ty in ("MF", "FMF", "FLF"):
             for c in (1, 2):
                 hs.append(count_harness(ty, "slice", 4, 2, c))
+        for ty in ("MF", "FMF", "FLF"):
+            hs.append(count_harness(ty, "slice", 5, 2, 2))  # 3 chunks for 2 workers: early-stopping workers lose the tail
         hs.append(foreach_harness("M", "slice", 3, 2, 1))
         hs.append(foreach_harness("FMF", "slice", 3, 2, 2))
         hs.append(foreach_harness("FL", "slice", 3, 2, 2))
